@@ -11,7 +11,8 @@ TIE = {'condorcet.Copeland/Schulze/MinimaxCondorcet/RankedPairs/KemenyYoung': 'c
        'component/pairwin_scorer.py': 'translator (Gen/Pairwin.v regenerated on every run, Props/GenTie_Pairwin.v proves it equal to the '
                                       'scorers of Model/Condorcet.v) + correspondence through minimax / ranked pairs',
        'sequential.Benham / TidemanAlternative / eliminate_one, RANKED_TO_CONDORCET, RANKED_SUBSETTER': 'correspondence (Model/Hybrids.v, '
-       'units 200-204; the model has the elimination step as written and as repaired, the harness probes which one the implementation has)'}
+       'units 200-204; the model has every repair as a flag - elimination step, single candidate / no pairwise contest, tiers after the first - '
+       'the harness probes which ones the implementation has and the declarative clauses reject the unrepaired behaviour)'}
 RULE = ('corpus; random pairwise dictionaries over 3..6 candidates (Kemeny <= 5): profile-derived (truncation, shared ranks, both '
         'unranked_at_bottom), arbitrary sparse, dense with exact ties, forced Condorcet winners, counts x 1e25; every entry of '
         'condorcet.EVALUATORS, n_seats 1..|C|. Compared with the model (exact list, ties as sets) and judged by the declarative '
@@ -20,15 +21,19 @@ RULE = ('corpus; random pairwise dictionaries over 3..6 candidates (Kemeny <= 5)
         'n = |C|. profile-derived: ranked profiles (truncation, bullet votes, shared ranks, unranked_at_bottom both ways) through the LIBRARY\'s '
         'RankedToCondorcetVotes into every EVALUATORS entry, and Benham / TidemanAlternative on the profile itself, judged against the Condorcet winner / Smith set of an '
         'INDEPENDENT pairwise count of the profile (harness). hybrids: ranked profiles over 1..6 candidates (bullet votes, truncation, shared '
-        'ranks, zero weights, weights up to 1e25, three-cycles with equal blocks so that first preferences tie) through Benham / '
-        'TidemanAlternative (n_seats 1, and 2 while the further tiers raise TypeError), RANKED_TO_CONDORCET, RANKED_SUBSETTER and '
+        'ranks, zero weights, weights up to 1e25, three-cycles with equal blocks so that first preferences tie, ballots ending in one shared rank of all '
+        'other candidates so that later tiers have no pairwise contest) through Benham / '
+        'TidemanAlternative (n_seats 1 in half of the cases, otherwise 2 .. candidates + 1), RANKED_TO_CONDORCET, RANKED_SUBSETTER and '
         'eliminate_one, compared with Model/Hybrids.v (result list, tie objects as sets, error kind) and judged by the declarative clauses '
-        'on the implementation\'s answer (Condorcet winner alone; plain winner in the brute-force Smith set; no undeclared exception). '
+        'on the implementation\'s answer (Condorcet winner alone / first; plain winner in the brute-force Smith set; several seats: min(n, candidates) '
+        'distinct plain candidates, every tier winner in the brute-force Smith set of the candidates left; a single candidate elected; no undeclared exception). '
         'non-trivial = no Condorcet winner or a pairwise tie or a missing reverse pair; distinct by case hash')
 PARTIAL = ['Benham: Smith containment is a theorem for the repaired elimination step only (C05_smith_benham, fx = true); for the step as '
-           'written on the pinned tree it is refuted (C05_smith_benham_refuted, known finding C05-hybrid-elimination-tie)',
-           'hybrids: IndexError on a profile whose pairwise dictionary is empty (single candidate; known finding C05-hybrid-empty-pairwise); '
-           'the Smith theorem for Benham assumes a non-empty dictionary']
+           'written on the pinned tree it is refuted (C05_smith_benham_refuted, finding C05-hybrid-elimination-tie, fixed)',
+           'hybrids: the theorems about several seats / a single candidate are about the library with fixes/C05-tideman-tiers.diff and '
+           'fixes/C05-hybrid-single-candidate.diff (findings C08-tideman-multiseat, C05-hybrid-empty-pairwise: fixed); a profile on which nobody '
+           'stands (only empty ballots) still ends in IndexError - outside the property (n_seats <= number of candidates); the Smith theorem for '
+           'Benham assumes a non-empty dictionary (a single candidate has no Smith set in the dictionary)']
 TRUSTED = []
 METHODS = ['rankedpairs_winvotes', 'rankedpairs_margins', 'rankedpairs_pwo', 'copeland_2o', 'copeland_raw', 'schulze',
            'kemeny_young', 'minimax_winvotes', 'minimax_margins', 'minimax_pwo']
@@ -281,22 +286,42 @@ def hyb_fixed():
     return _PROBE['fx']
 
 
-def tiers_as_written():
-    """TidemanAlternative beyond the first tier: RANKED_SUBSETTER.convert(tier_votes) without the subset -> TypeError (pinned
-    tree, modelled as H_type); cases with n_seats > 1 are only generated while that is what the implementation does"""
+def single_fixed(which='tideman_alt'):
+    """does a candidate that stands alone get elected (fixes/C05-hybrid-single-candidate.diff: 1) or does Benham resp.
+    TidemanAlternative run into the IndexError of eliminate_one on a profile without a pairwise contest (0)?  Probed per class
+    (the patch repairs Benham.get_condorcet_winner and TidemanAlternative.get_winner_set).  The model has both behaviours
+    (Model/Hybrids.v sc); the old one is reported by hyb_spec as a violation (finding C05-hybrid-empty-pairwise, status fixed)."""
+    key = 'sc:' + which
+    if key not in _PROBE:
+        import votelib.evaluate.sequential as seq
+        ev = seq.Benham() if which == 'benham' else seq.TidemanAlternative()
+        r = common.call_impl(lambda: ev.evaluate({('A',): 1}, 1), 5)
+        _PROBE[key] = 1 if r[0] == 'ok' else 0
+    return _PROBE[key]
+
+
+def tiers_fixed():
+    """TidemanAlternative beyond the first tier: the votes restricted to the still eligible candidates
+    (fixes/C05-tideman-tiers.diff: 1) or RANKED_SUBSETTER.convert(tier_votes) without the subset -> TypeError (0, modelled as
+    H_type).  Cases with n_seats > 1 are always generated; the TypeError is a violation (known finding C08-tideman-multiseat,
+    status fixed)."""
     if 'tiers' not in _PROBE:
         import votelib.evaluate.sequential as seq
         r = common.call_impl(lambda: seq.TidemanAlternative().evaluate({('A', 'B'): 2, ('B', 'A'): 1}, 2), 5)
-        _PROBE['tiers'] = (r[0] == 'err' and r[1] == common.E['TYPE'])
+        _PROBE['tiers'] = 0 if (r[0] == 'err' and r[1] == common.E['TYPE']) else 1
     return _PROBE['tiers']
+
+
+def tiers_as_written():
+    return not tiers_fixed()
 
 
 def hyb_line(c):
     m, prof = c['method'], sx(c['profile'])
     if m == 'benham':
-        return '%d (%d %s)' % (HB + 0, hyb_fixed(), prof)
+        return '%d (%d %d %s)' % (HB + 0, hyb_fixed(), single_fixed('benham'), prof)
     if m == 'tideman_alt':
-        return '%d (%d %s %d)' % (HB + 1, hyb_fixed(), prof, c['n'])
+        return '%d (%d %d %d %s %d)' % (HB + 1, hyb_fixed(), single_fixed('tideman_alt'), tiers_fixed(), prof, c['n'])
     if m == 'to_condorcet':
         return '%d (%s)' % (HB + 2, prof)
     if m == 'subsetter':
@@ -343,35 +368,68 @@ def hyb_canon(c, wire):
     return ('ok', tuple(tuple(sorted(r)) if isinstance(r, list) else r for r in v[1]))
 
 
+def restrict_pairwise(pwv, keep):
+    return [[[a, b], k] for (a, b), k in pwv if a in keep and b in keep]
+
+
 def hyb_spec(c, io, mo):
     """the declarative clauses on the implementation's answer, against the INDEPENDENT pairwise count of the profile"""
     if c['method'] not in HYBRIDS:
         return None
     v = common.parse_sx(io)
     pwv, allc = ref_pairwise(c['profile'], True)
+    if not allc:
+        return None                    # nobody stands: outside the property
     cw = pw.ref_cw(pwv) if pwv else []
     if v[0] != 0:
-        if v[1] == common.E['TYPE'] and c['method'] == 'tideman_alt' and c['n'] != 1 and v == common.parse_sx(mo):
-            return None                # the unimplemented further tiers of the pinned tree (C05 observes evaluate(votes, 1))
-        if not pwv:
+        if v[1] == common.E['TYPE'] and c['method'] == 'tideman_alt' and c['n'] != 1:
+            c['_class'] = 'tiers-typeerror'
+            return 'TypeError from the tiers after the first (RANKED_SUBSETTER.convert without the eligible candidates)'
+        several = c['method'] == 'tideman_alt' and c['n'] != 1
+        if v[1] == common.E['NIE'] and (not cw or several):
+            return None                # the declared refusal: a tie in the elimination (several seats: of a later tier)
+        if not pwv or (several and v[1] == common.E['INDEX']):
             c['_class'] = 'degenerate'
-            return 'undeclared exception %s on a profile whose pairwise dictionary is empty' % common.E_NAME.get(v[1], v[1])
+            return ('undeclared exception %s on a profile / in a tier without a pairwise contest (%d candidate(s) stand)'
+                    % (common.E_NAME.get(v[1], v[1]), len(allc)))
         if cw:
             c['_class'] = 'cw-refused'
             return 'refuses (%s) although %s is the Condorcet winner of the profile' % (common.E_NAME.get(v[1], v[1]), cw)
-        if v[1] == common.E['NIE']:
-            return None                # the declared refusal
         c['_class'] = 'tie-leak'
         return 'undeclared exception %s' % common.E_NAME.get(v[1], v[1])
     res = v[1]
-    if cw and res != [cw[0]]:
+    if cw and res[:1] != [cw[0]]:
         c['_class'] = 'cw'
-        return 'Condorcet winner %s of the profile (independent pairwise count) not elected alone: %s' % (cw, res)
-    if pwv and len(res) == 1 and not isinstance(res[0], list):
-        sm = pw.ref_smith(pwv)
-        if res[0] not in sm:
-            c['_class'] = 'tie-leak'
-            return 'winner %s outside the Smith set %s of the profile' % (res, sm)
+        return 'Condorcet winner %s of the profile (independent pairwise count) not elected first: %s' % (cw, res)
+    if c['method'] == 'benham' or c['n'] == 1:
+        if len(res) != 1:
+            c['_class'] = 'length'
+            return 'one seat, %d entries: %s' % (len(res), res)
+        if len(allc) == 1 and res != allc:
+            c['_class'] = 'single'
+            return 'the only candidate %s is not elected: %s' % (allc, res)
+        if pwv and not isinstance(res[0], list):
+            sm = pw.ref_smith(pwv)
+            if res[0] not in sm:
+                c['_class'] = 'tie-leak'
+                return 'winner %s outside the Smith set %s of the profile' % (res, sm)
+        return None
+    # TidemanAlternative, several seats: min(n, candidates) distinct plain candidates, each the winner of its tier -
+    # a member of the Smith set of the candidates not elected before it (all of them when they have no contest)
+    if any(isinstance(r, list) for r in res) or len(set(res)) != len(res) or not set(res) <= set(allc):
+        c['_class'] = 'tiers-shape'
+        return 'tier winners %s are not distinct plain candidates of the votes' % (res,)
+    if len(res) != min(c['n'], len(allc)):
+        c['_class'] = 'tiers-shape'
+        return '%d entries for %d seats and %d candidates: %s' % (len(res), c['n'], len(allc), res)
+    left = list(allc)
+    for w in res:
+        sub = restrict_pairwise(pwv, left)
+        sm = pw.ref_smith(sub) if sub else left
+        if w not in sm:
+            c['_class'] = 'tiers-smith'
+            return 'tier winner %s outside the Smith set %s of the remaining candidates %s (answer %s)' % (w, sm, left, res)
+        left.remove(w)
     return None
 
 
@@ -381,6 +439,8 @@ def hyb_known(c, io, mo):
     cls = c.get('_class')
     if cls == 'degenerate':
         return 'C05-hybrid-empty-pairwise'
+    if cls == 'tiers-typeerror':
+        return 'C08-tideman-multiseat'
     if cls == 'tie-leak' and not hyb_fixed():
         return 'C05-hybrid-elimination-tie'
     return None
@@ -413,7 +473,7 @@ def gen_hyb_ballot(rng, ids, shared_p):
 
 def gen_hybrids(rng, count):
     for i in range(count):
-        m = 1 if rng.random() < 0.02 else rng.choice([2, 3, 3, 4, 4, 4, 5, 5, 6])
+        m = 1 if rng.random() < 0.04 else rng.choice([2, 3, 3, 4, 4, 4, 5, 5, 6])
         ids = list(range(1, m + 1))
         shared_p = rng.choice([0, 0, 0, 0.2])
         style = rng.random()
@@ -429,6 +489,16 @@ def gen_hybrids(rng, count):
             for _ in range(rng.randint(0, 3)):
                 b = gen_hyb_ballot(rng, ids, shared_p)
                 prof[json_key(b)] = prof.get(json_key(b), 0) + rng.randint(1, 2)
+        elif style < 0.27 and m >= 2:
+            # boundary of the repaired get_winner_set: tiers / profiles WITHOUT a pairwise contest - every ballot ranks a few
+            # candidates (the same ones in every ballot: they get elected tier by tier) above ONE shared rank of all the others
+            top = ids[:rng.randint(0, max(0, m - 2))]
+            rest = ids[len(top):]
+            for _ in range(rng.randint(1, 3)):
+                t = top[:]
+                rng.shuffle(t)
+                b = t + ([sorted(rest)] if len(rest) > 1 else rest)
+                prof[json_key(b)] = prof.get(json_key(b), 0) + rng.randint(1, 3)
         else:
             wmax = rng.choice([1, 2, 5, 5, 10 ** 25])
             for _ in range(rng.randint(1, 7)):
@@ -440,7 +510,8 @@ def gen_hybrids(rng, count):
         if r < 0.42:
             yield dict(unit='hybrid', method='benham', profile=profile, n=1, names=names)
         elif r < 0.84:
-            yield dict(unit='hybrid', method='tideman_alt', profile=profile, n=(2 if tiers_as_written() and rng.random() < 0.05 else 1), names=names)
+            # one seat (what C05 observes) in half of the cases, otherwise 2 .. candidates + 1 seats (the tiers after the first)
+            yield dict(unit='hybrid', method='tideman_alt', profile=profile, n=(1 if rng.random() < 0.5 else rng.randint(2, m + 1)), names=names)
         elif r < 0.9:
             yield dict(unit='hybrid', method='to_condorcet', profile=profile, n=1)
         elif r < 0.95:
